@@ -52,10 +52,10 @@ type sCondInf struct { // symbolic boolean: "the point with this form is the poi
 	neg  bool
 }
 
-type sPoint struct{ id int }           // *SM2Point
-type sPtr struct{ id, idx int }        // pointer into a heap array (idx -1: the array itself)
-type sSlice struct{ id, lo, hi int }   // slice of a heap array
-type sSymElem struct {                 // array element selected by a symbolic index
+type sPoint struct{ id int }         // *SM2Point
+type sPtr struct{ id, idx int }      // pointer into a heap array (idx -1: the array itself)
+type sSlice struct{ id, lo, hi int } // slice of a heap array
+type sSymElem struct {               // array element selected by a symbolic index
 	id  int
 	idx *sSym
 }
@@ -81,30 +81,30 @@ type hArray struct{ elems []sVal }
 type sVal interface{}
 
 type sState struct {
-	vals  map[ssa.Value]sVal
-	heap  map[int]interface{}
-	zeros map[string]bool
-	sign  map[string]uint8 // digit atom -> subset of {neg 1, zero 2, pos 4}
-	nulls []pform          // forms known to denote the point at infinity on this path
-	ones  map[string]bool  // bit atoms known to be 1 on this path
-	ghost pform            // weighted sum of the digits stored into the observed output array (sum val * 2^index)
-	ghostNext int          // smallest index at which the next non-zero digit may be stored (spacing rule)
-	bnd   map[string][2]*big.Rat // bounds learned from branches on a linear form (keyed by its non-constant part)
-	exps  map[int]pform          // exponent forms of field-element limb arrays (addition-chain evaluation)
+	vals      map[ssa.Value]sVal
+	heap      map[int]interface{}
+	zeros     map[string]bool
+	sign      map[string]uint8       // digit atom -> subset of {neg 1, zero 2, pos 4}
+	nulls     []pform                // forms known to denote the point at infinity on this path
+	ones      map[string]bool        // bit atoms known to be 1 on this path
+	ghost     pform                  // weighted sum of the digits stored into the observed output array (sum val * 2^index)
+	ghostNext int                    // smallest index at which the next non-zero digit may be stored (spacing rule)
+	bnd       map[string][2]*big.Rat // bounds learned from branches on a linear form (keyed by its non-constant part)
+	exps      map[int]pform          // exponent forms of field-element limb arrays (addition-chain evaluation)
 	// protocol domain
-	pfacts   []pFact
-	draws    int
-	readErrs int
-	drawLens []int
-	hdrDraws map[*ssa.BasicBlock]int
-	pbyteSrc *pt
+	pfacts    []pFact
+	draws     int
+	readErrs  int
+	drawLens  []int
+	hdrDraws  map[*ssa.BasicBlock]int
+	pbyteSrc  *pt
 	drawSites []ssa.Instruction
 	dead      bool
 	limbTerm  map[int]*pt // value of limb arrays (element decoding)
 	geff      []gEffect   // glue domain: effect log
 	gfields   map[string]sVal
 	loops     map[loopKey]*loopHist // stream domain: per loop header history
-	gcells   map[string]int // package-level variables of the analysed package (heap cells)
+	gcells    map[string]int        // package-level variables of the analysed package (heap cells)
 }
 
 func (s *sState) clone() *sState {
@@ -344,28 +344,28 @@ type schedRet struct {
 }
 
 type sched struct {
-	rootArgs []sVal // arguments of the interpreted entry point
-	followed map[*ssa.Function]bool // functions whose bodies were interpreted (calls followed)
-	p       *Prog
-	tables  map[string]*tabSem
-	nextID  int
-	errs    []string
-	steps   int
-	panics  []string
-	forced  []bool            // decisions for conditions on an unknown length, consumed in order
-	stopAt  *ssa.BasicBlock   // with forced exhausted: stop when this block is reached again
-	stopped []*sState
-	pdom    map[*ssa.Function]map[*ssa.BasicBlock]*ssa.BasicBlock
-	assume  map[string]bool
-	live    map[*ssa.Function]map[*ssa.BasicBlock]map[ssa.Value]bool
-	frames  []*ssa.Function // functions being interpreted (innermost last)
-	ghostArr int            // heap id of the observed output array (0: none)
-	ghostW   int            // window width for the digit rules
-	expOps   int            // field multiplications and squarings followed (addition-chain evaluation)
-	expMode  bool           // summarise the Fiat Mul/Square primitives in the exponent domain
-	proto    *protoDom      // protocol domain (SM2 entry points)
-	precond  []string       // preconditions of summarised operations that the path does not establish
-	restarts []*sState      // states that went back to a retry loop's header after drawing
+	rootArgs      []sVal                 // arguments of the interpreted entry point
+	followed      map[*ssa.Function]bool // functions whose bodies were interpreted (calls followed)
+	p             *Prog
+	tables        map[string]*tabSem
+	nextID        int
+	errs          []string
+	steps         int
+	panics        []string
+	forced        []bool          // decisions for conditions on an unknown length, consumed in order
+	stopAt        *ssa.BasicBlock // with forced exhausted: stop when this block is reached again
+	stopped       []*sState
+	pdom          map[*ssa.Function]map[*ssa.BasicBlock]*ssa.BasicBlock
+	assume        map[string]bool
+	live          map[*ssa.Function]map[*ssa.BasicBlock]map[ssa.Value]bool
+	frames        []*ssa.Function // functions being interpreted (innermost last)
+	ghostArr      int             // heap id of the observed output array (0: none)
+	ghostW        int             // window width for the digit rules
+	expOps        int             // field multiplications and squarings followed (addition-chain evaluation)
+	expMode       bool            // summarise the Fiat Mul/Square primitives in the exponent domain
+	proto         *protoDom       // protocol domain (SM2 entry points)
+	precond       []string        // preconditions of summarised operations that the path does not establish
+	restarts      []*sState       // states that went back to a retry loop's header after drawing
 	digitProblems []string
 	digitStores   int
 	dbgN          int
